@@ -452,6 +452,11 @@ static value run_step(const value& st, std::map<int, std::unique_ptr<VM>>& vms)
         out.set("exc", "non-std exception");
         vm.poisoned = true;
     }
+    {
+        // a run that was cut by the time limit leaves the VM in a state later runs must not inherit in batch workloads
+        std::lock_guard<std::mutex> g(vm.logger.mtx);
+        for (auto& e : vm.logger.entries) { if (e.code == 60002) { if (vm.cfg["auto_renew"].boolean(false)) vm.poisoned = true; } }
+    }
     out.set("logs", vm.logger.drain());
     out.set("st", state_of(vm));
     if (vm.mon && st["mon"].boolean(false)) out.set("mon", vm.mon->report(true));
